@@ -77,7 +77,7 @@ def render(batch, fmt, lang, default_stack=False):
         dlang.set_global_language_to('en')
 
 
-def make_batch(rng, lang, n_sent=None, licensed_only=False, awkward=0.2, with_failed=0.0, bare=0.0, unispace=0.0):
+def make_batch(rng, lang, n_sent=None, licensed_only=False, awkward=0.2, with_failed=0.0, bare=0.0, unispace=0.0, reader_like=0.0):
     cats = gen_cat.tree_cats(lang)
     out = []
     for _ in range(n_sent or rng.randint(1, 3)):
@@ -91,6 +91,8 @@ def make_batch(rng, lang, n_sent=None, licensed_only=False, awkward=0.2, with_fa
             t = T.licensed_tree(rng, lang, rng.randint(0, 4), kw)
         else:
             t = T.arbitrary_tree(rng, lang, rng.randint(1, 5), cats, T.EN_LABELS if lang == 'en' else T.JA_LABELS, kw)
+        if rng.random() < reader_like:
+            t = T.unk_variant(rng, t, lang)
         if rng.random() < 0.3:
             T.repeat_tokens(rng, t)
         trees = [t]
